@@ -227,8 +227,15 @@ def oracle(c, out, D):
         pts = [tuple(p) for p in r]
         if len(set(pts)) != len(pts):
             return ("hexagons-duplicate", "concentric_hexagons(%d) yields a chip twice" % R)
-        box = (start[0] - R - 2, start[1] - R - 2, start[0] + R + 3, start[1] + R + 3)
-        dist = bfs(mesh_neigh(*box), start, limit=R + 1)
+        need = 0
+        while 1 + 3 * need * (need + 1) < len(pts):
+            need += 1                          # the prefix cannot reach beyond ring `need`
+        if len(pts) != min(c["n"], 1 + 3 * R * (R + 1)):
+            return ("hexagons-ball", "concentric_hexagons(%d, %r) yielded %d chips when asked for %d"
+                    % (R, start, len(pts), c["n"]))
+        Rs = min(R, need + 1)
+        box = (start[0] - Rs - 2, start[1] - Rs - 2, start[0] + Rs + 3, start[1] + Rs + 3)
+        dist = bfs(mesh_neigh(*box), start, limit=Rs + 1)
         if any(p not in dist or dist[p] > R for p in pts):
             return ("hexagons-ball", "concentric_hexagons(%d, %r) yields a chip outside the radius" % (R, start))
         ds = [dist[p] for p in pts]
@@ -573,6 +580,26 @@ def gen_phase1(chk):
             forms["start"] = rng.choice(["tuple", "list", "ndarray", "npscalars"])
         cases.append(dict(fn="ldf", v=v, start=start, width=width, height=height,
                           ks=[rng.randrange(TWO53) for _ in range(3)], forms=forms))
+    # large radii, consumed lazily (a generator must not need the whole ball, nor deep recursion, to start)
+    for R, n in [(1200, 400), (3000, 700), (3000, 1), (100000, 50)] + ([] if quick else [(10 ** 6, 2000), (2500, 5000)]):
+        cases.append(dict(fn="hexprefix", radius=R, n=n, start=[rng.randint(-5, 5), rng.randint(-5, 5)]))
+    # width / height as numpy integer scalars, walks crossing the edges (unsigned sizes only with walks that
+    # never step below 0: under numpy 2 `-1 % numpy.uint8(5)` raises -- reported, kept out of the stream)
+    for i in range(240 if quick else 3000):
+        dt = ["int8", "int16", "int32", "int64", "uint8", "uint16", "uint32", "uint64"][i % 8]
+        width, height = rng.choice([(5, 3), (6, 7), (3, None), (None, 5), (16, 8), (1, 2)])
+        if dt.startswith("u"):
+            v = [rng.randint(0, 7), rng.randint(0, 7), 0]
+        else:
+            v = [rng.randint(-7, 7), rng.randint(-7, 7), rng.choice([0, rng.randint(-5, 5)])]
+        start = [rng.randrange(width or 4), rng.randrange(height or 4)]
+        cases.append(dict(fn="ldf", v=v, start=start, width=width, height=height, wform=dt,
+                          ks=[rng.randrange(TWO53) for _ in range(3)]))
+    # from_vector on floats of integral value (Python / numpy floats, -0.0), adjacent and wrapping
+    for i in range(160 if quick else 1500):
+        m = rng.choice([1, 1, 2, 5])
+        cases.append(dict(fn="from_vector", v=[rng.randint(-m, m), rng.randint(-m, m)],
+                          forms=dict(v=["float", "npfloat64", "npfloat32", "negzero", "floatarray"][i % 5])))
     # kernels
     for _ in range(200 if quick else 3000):
         cases.append(dict(fn="minimise", v=[rng.randint(-9, 9) for _ in range(3)]))
@@ -674,7 +701,12 @@ def coq_expr(c, o):
     if fn == "hex":
         return "concentric_hexagons %s %s" % (zlit(c["radius"]), v2(c["start"]))
     if fn == "hexprefix":
-        return "firstn %d (concentric_hexagons %s %s)" % (c["n"], zlit(c["radius"]), v2(c["start"]))
+        need = 0
+        while 1 + 3 * need * (need + 1) < c["n"]:
+            need += 1
+        # C11_hexagons_prefix: the list for radius R starts with the list for any smaller radius, so the
+        # first n chips are those of the smallest radius that has n chips (keeps vm_compute cheap)
+        return "firstn %d (concentric_hexagons %s %s)" % (c["n"], zlit(min(c["radius"], need)), v2(c["start"]))
     if fn == "from_vector":
         return "links_from_vector %s" % v2(c["v"])
     if fn == "to_xyz":
@@ -784,6 +816,8 @@ def process(chk, D, state, cases, outs):
             chk.count("torus:thin(w or h <= 2)" if min(c["w"], c["h"]) <= 2 else "torus:w,h >= 3")
             if fn == "torus_path" and o[0] == "ok":
                 chk.count("torus_path:spiral-draw" if o[1]["requests"] else "torus_path:no-spiral-draw")
+        if c.get("wform"):
+            chk.count("numpy-size:" + c["wform"])
         if c.get("big"):
             chk.count("big-numbers(>=2^53):" + fn)
         for k_, f_ in sorted(c.get("forms", {}).items()):
